@@ -109,7 +109,7 @@ static unsigned flash_blankmask(void) {
 }
 
 /* ---- configuration: everything comes from the integers of the BOOT line ----
- * BOOT boot32 blank flashcfg nin {type flags relay atcap at}* nrs {ex ch flags regflags tilt upg dng t1 t2}*
+ * BOOT boot32 blank flashcfg nin {type flags relay atcap at channel}* nrs {ex ch flags regflags tilt upg dng t1 t2}*
  *      nrel {gpio channel chflags}* {up_idx down_idx}*nrs rsflags gpioin {gpio channel}*nin          (the tail is for this driver only) */
 static long long c_at[INPUT_MAX_COUNT], c_tilt[8]; static int c_nat = 0, c_ntilt = 0, c_blank = 0, c_flashcfg = 1, c_fw = 0;
 static void c12_cfg(const char *line) {
@@ -123,7 +123,7 @@ static void c12_cfg(const char *line) {
   v_board.ninput = nin; c_nat = nin;
   for (int i = 0; i < nin; i++) {
     v_board.input[i].type = (int)NX; v_board.input[i].flags = (int)NX; v_board.input[i].relay_gpio = (int)NX;
-    v_board.input[i].at_cap = (unsigned)NX; c_at[i] = NX; v_board.input[i].gpio = 255; v_board.input[i].channel = 255;
+    v_board.input[i].at_cap = (unsigned)NX; c_at[i] = NX; v_board.input[i].gpio = 255; v_board.input[i].channel = (int)NX;
   }
   int nrs = (int)NX; if (nrs > 4) nrs = 4; if (nrs < 0) nrs = 0;
   v_board.nrs = nrs; c_ntilt = nrs; ds_ntime1 = ds_ntime2 = nrs;
